@@ -326,7 +326,8 @@ def check(env, rep, tier):
                 # a typed write: the wrapped value is handed to a Packet method (add_option_as, set_options_as, or a private
                 # helper generic over the option value type)
                 if t["k"] == "call" and provenance.callee_path(t).startswith("packet::Packet::") \
-                        and any(a_["k"] in ("move", "copy") and a_["place"]["l"] in wrap_locals for a_ in t["args"]):
+                        and (any(a_["k"] in ("move", "copy") and a_["place"]["l"] in wrap_locals for a_ in t["args"])
+                             or provenance.callee_path(t) in ("packet::Packet::add_option_as", "packet::Packet::set_options_as")):
                     typed += 1
             ok = typed >= 1 and len(wraps) >= 1 and all(w[0].endswith("U32") and w[1] == ([], ("arg", 2, "")) for w in wraps)
             rep.ob("C06.7", "set_observe_value", ok,
